@@ -184,7 +184,8 @@ func (p *PluginContainer) cloneAndAppendMiddle(plugins ...Plugin) *PluginContain
 	oldRefreshTree := p.refreshTree
 	p.refreshTree = func() {
 		oldRefreshTree()
-		newPluginContainer.refresh()
+		// refresh the clone and, through its own chain, every container cloned from it
+		newPluginContainer.refreshTree()
 	}
 	return newPluginContainer
 }
